@@ -156,7 +156,7 @@ def _c10_vm_sample(d, tier, coq, build, want=150):
 
 CONFIG = {
     "properties_file": "Properties/C10.v",
-    "proof_files": ["Base/Prelude.v", "Proofs/OciCrash.v", "Proofs/OciGC.v", "Proofs/OciCrashGC.v", "Proofs/OciCrashConc.v", "Proofs/OciCrashOff.v", "Proofs/OciCrashSync.v"],
+    "proof_files": ["Base/Prelude.v", "Proofs/OciCrash.v", "Proofs/OciGC.v", "Proofs/OciCrashGC.v", "Proofs/OciCrashConc.v", "Proofs/OciCrashOff.v", "Proofs/OciCrashSync.v", "Proofs/OciCrashGo.v"],
     "model_files": ["Generated/GC10.v", "Model/OciCrash.v", "Model/OciCrashSpec.v", "Model/OciCrashConc.v"],
     "also_translate": ["C09"],
     "extract": "XC10.v",
@@ -187,7 +187,7 @@ CONFIG = {
         "strace 6.1 fault injection (-e inject=<syscall>:signal=KILL:when=<n>) and its trace output; the child runs with GOMAXPROCS=1 and the main goroutine locked to the first thread; the actual kill point is re-read from the trace of the killed run",
     ],
     "level_text": "Coq theorem over every history of completed Push/Tag/Untag/Delete/SaveIndex operations, every interrupted operation and every cut of its file-system micro-step list (invariant proof, any verification function, any map iteration order): layout valid, every blob file complete and matching its name, index.json parses and names only existing blobs, index.json / tag mapping is the one before or the one after, no completed effect lost; the same after any number of earlier crashes each followed by oci.New on what was left (tag resolver reloaded from index.json, leftover temporaries in place); completed histories refine the sequential specification of the API; no file a reader looks at is ever written in place (write granularity irrelevant); the pre-repair in-place index write and the swapped Delete order are refuted by witnesses. Delete with AutoGC and GC: every cut of a call made of any list of primitives is a crash state of one primitive between two quiescent states of the call (C10_crash_safe_composite), after any earlier crashes; a crash during the first oci.New is repaired by the next one (C10_init_restartable). The orders the proofs depend on (temp+rename writes of index.json and oci-layout, index before unlink, GC: save before sweep) are re-read from the Go source on every run (translator kind callseq) and configure the model; the thorough tier re-evaluates a sample of kill cases inside Coq with vm_compute. The model is tied to the code by killing a real child process at every system call of the interrupted operation (strace inject) and comparing the directory with the model after the same number of micro-steps, by comparing the recorded system-call script with the model's micro-step list, and by an independent oracle (oci.New + raw readers + generator ground truth)",
-    "level_note": "theorems: full for AutoSaveIndex=true over histories of API calls (expand: media type / decodability decide the primitives) and of primitives, with any number of earlier crashes: Recoverable at every cut, loadIndex succeeds incl. manifest decoding (C10_api_reopen_loads), completed effects survive and nothing is invented across crashes, initialisation restartable after any number of interrupted attempts; Delete-with-AutoGC and GC at the level 'any list of primitives' plus C10_gc_crash_safe / C10_cascade_* whose hypotheses are derived from C09's exact sets (C10_cascade_of_gc_model, C10_gc_of_gc_model; names_agree is the only link between the two models) and checked by the harness on every recorded call. Oracle-only: graph.IndexAll's recursion on load; the index contents of Store.delete's re-entry of a dangling manifest by digest (scripts reaching it are abandoned); descriptor fields of index entries (media type, annotations). AutoSaveIndex=false: the full statement is refuted (known finding) and C10_autosave_off_partial proves what remains (valid layout, complete blobs, a parsing index.json equal to the one before or after, blobs between) for all histories and cuts, checked by the oracle on the NoAutoSave scripts; kernel semantics (atomic rename, no loss at process death) modelled, not verified; JSON encoding and SHA-2 abstracted; concurrent callers (Push/Tag/Untag/SaveIndex under the read lock) have their own model (Model/OciCrashConc.v: thread-private temporaries, atomic resolver updates, saveIndex as the indexLock critical section) with C10_conc_crash_safe over all schedules, C10_conc_quiescent_synced (when all calls of every batch have returned index.json is exactly the index of the resolver: what indexLock is for; refuted without the lock) and C10_conc_phases_crash_safe (sequential phases with crashes, completed batches and batches killed at any prefix of any schedule alternate freely; the sequential invariant and 'index.json = index of the resolver' hold after each, incl. after every reopen: the oracle compares the reopened store's resolver with index.json, reopen-resolver-differs), C10_conc_completed_push (a Push that returned has stored its blob and, for a new manifest, its index entry, whatever ran concurrently), tied to the code by C10_source_locks (layer T/P) and by an oracle-only stress stream (goroutines killed at arbitrary moments, or run to completion under a 30 s watchdog and then resolver (Tags/Resolve) == index.json; the schedule is not observable, so killed batches are not compared with the model) and by a model-compared stream (layer R, case kind Q): batches of single calls whose behaviour is decided by the state before the batch run to completion, and the directory they leave (index.json entries, blobs) must be the final directory of SOME schedule of the extracted concurrent model -- the model runner explores all interleavings (QREACH no otherwise; floor conc-model-compared); half of them are killed at an arbitrary moment instead and the directory left must be that of some configuration some schedule passes through (floor conc-model-compared-killed); callseq/callguards tie source ORDER and enclosing CONDITIONS of the effects and the lock discipline (C10_source_locks: read lock held for the whole of Push/Tag/Untag/SaveIndex, write lock for Delete/GC, indexLock around snapshot+write in saveIndex; callseq with mark_defer), nothing else of the control flow",
+    "level_note": "theorems: full for AutoSaveIndex=true over histories of API calls (expand: media type / decodability decide the primitives) and of primitives, with any number of earlier crashes: Recoverable at every cut, loadIndex succeeds incl. manifest decoding (C10_api_reopen_loads), completed effects survive and nothing is invented across crashes, initialisation restartable after any number of interrupted attempts; Delete-with-AutoGC and GC at the level 'any list of primitives' plus C10_gc_crash_safe / C10_cascade_* whose hypotheses are derived from C09's exact sets (C10_cascade_of_gc_model, C10_gc_of_gc_model; names_agree is the only link between the two models) and checked by the harness on every recorded call. Oracle-only: graph.IndexAll's recursion on load; the index contents of Store.delete's re-entry of a dangling manifest by digest (scripts reaching it are abandoned); descriptor fields of index entries (media type, annotations). AutoSaveIndex=false: the full statement is refuted (known finding) and C10_autosave_off_partial proves what remains (valid layout, complete blobs, a parsing index.json equal to the one before or after, blobs between) for all histories and cuts, checked by the oracle on the NoAutoSave scripts; kernel semantics (atomic rename, no loss at process death) modelled, not verified; JSON encoding and SHA-2 abstracted; concurrent callers (Push/Tag/Untag/SaveIndex under the read lock) have their own model (Model/OciCrashConc.v: thread-private temporaries, atomic resolver updates, saveIndex as the indexLock critical section) with C10_conc_crash_safe over all schedules, C10_conc_quiescent_synced (when all calls of every batch have returned index.json is exactly the index of the resolver: what indexLock is for; refuted without the lock) and C10_conc_phases_crash_safe (sequential phases with crashes, completed batches and batches killed at any prefix of any schedule alternate freely; the sequential invariant and 'index.json = index of the resolver' hold after each, incl. after every reopen: the oracle compares the reopened store's resolver with index.json, reopen-resolver-differs), C10_conc_completed_push (a Push that returned has stored its blob and, for a new manifest, its index entry, whatever ran concurrently), C10_conc_completed_tag / C10_conc_completed_untag (a Tag / Untag that returned, no other call of the batch naming its reference, has / has not its reference in index.json; refuted for a shared reference; all three checked directly by the oracle on completed batches: conc-completed-lost), C10_goroutines_crash_safe (the same for goroutines that each make a queue of calls, the program of a call decided when it starts: gstep/gsched), tied to the code by C10_source_locks (layer T/P) and by an oracle-only stress stream (goroutines killed at arbitrary moments, or run to completion under a 30 s watchdog and then resolver (Tags/Resolve) == index.json; the schedule is not observable, so killed batches are not compared with the model) and by a model-compared stream (layer R, case kind Q): batches of single calls whose behaviour is decided by the state before the batch run to completion, and the directory they leave (index.json entries, blobs) must be the final directory of SOME schedule of the extracted concurrent model -- the model runner explores all interleavings (QREACH no otherwise; floor conc-model-compared); half of them are killed at an arbitrary moment instead and the directory left must be that of some configuration some schedule passes through (floor conc-model-compared-killed); half of the batches have goroutines that make several unrestricted calls and are compared with gstart/gsched in the same two ways (floor conc-model-compared-queues); callseq/callguards tie source ORDER and enclosing CONDITIONS of the effects and the lock discipline (C10_source_locks: read lock held for the whole of Push/Tag/Untag/SaveIndex, write lock for Delete/GC, indexLock around snapshot+write in saveIndex; callseq with mark_defer) and initialisation/loading (C10_source_init: NewWithContext = storage, blobs/, oci-layout, index.json in this order; each file written only when opening it failed; loadIndex enters every entry by digest, by name iff named, and indexes it), nothing else of the control flow",
     "technique": "machine-checked proof in Coq (invariant over file-system micro-steps, every cut of every operation after every history) + model/implementation correspondence by real SIGKILL at every system-call boundary (strace) + independent oracle",
     "explanation": "theorems over all histories/operations/cuts about the micro-step model of content/oci (Store.Push/Tag/Untag/Delete/SaveIndex, Storage.Push/ingest/Delete, writeIndexFile); each run records the system calls of scripted operations on a real oci.Store in a child process, kills the child before every system call of the final operation, and compares directory, script and results with the extracted model; the oracle reopens the killed directory with oci.New and checks blobs, index entries, tag mapping (before/after) and completed effects against the generator's ground truth",
 }
